@@ -20,7 +20,9 @@ EXTENDS Naturals, TLC
 NameClass == {"local", "hostglobal", "builtin", "shadow_lg", "shadow_gb", "agentonly", "undefined",
               \* the name is used inside a nested scope of the expression (a lambda, a generator expression): it is still
               \* the name visible at the paused line - the local, also when a global of the same name exists
-              "local_nested", "shadow_nested"}
+              "local_nested", "shadow_nested",
+              \* the expression asks locals() itself (`'x' in locals()`): the paused frame's locals, and nothing else
+              "via_locals"}
 Site      == {"condition", "watch", "logfield", "metric", "label"}
 Wrap      == {"plain", "padded",         \* padded: the same text with blanks/tabs in front (valid for eval: same outcome)
               "raises_exception", "raises_baseexception",
@@ -42,6 +44,7 @@ Resolve(nc) ==
       [] nc = "shadow_lg"  -> "L"
       [] nc = "local_nested" -> "L"
       [] nc = "shadow_nested" -> "L"
+      [] nc = "via_locals" -> "L"
       [] nc = "shadow_gb"  -> "G"
       [] nc = "agentonly"  -> "ERR"      \* names of the agent's own modules are not in scope
       [] nc = "undefined"  -> "ERR"
@@ -75,7 +78,7 @@ Next == UNCHANGED vars
 (* nothing of the agent's own is visible *)
 AgentInvisible == case.nc = "agentonly" => expected.src = "ERR"
 (* the paused frame's locals and its module's globals are visible, locals first *)
-FrameScope == /\ (case.wrap \in Healthy /\ case.nc \in {"local", "shadow_lg", "local_nested", "shadow_nested"}) => expected.src = "L"
+FrameScope == /\ (case.wrap \in Healthy /\ case.nc \in {"local", "shadow_lg", "local_nested", "shadow_nested", "via_locals"}) => expected.src = "L"
               /\ (case.wrap \in Healthy /\ case.nc \in {"hostglobal", "shadow_gb"}) => expected.src = "G"
               /\ (case.wrap \in Healthy /\ case.nc = "builtin") => expected.src = "B"
 (* a failing condition rejects the hit; a failing expression elsewhere never suppresses the action *)
